@@ -163,12 +163,12 @@ AUDITS: list = []
 
 def contract(fn, name, call, vars=None, requires=(), ensures=(), raises=None, ensures_raise=(), instances=None,  # noqa: A002
              uses=(), loops=None, modular=None, note="", must_inline=(), replay=None, on_effect=None, covers=(),
-             assumes=(), tier="quick", max_paths=None, expected_paths=None, stubs=None, refs=None):
+             assumes=(), tier="quick", max_paths=None, expected_paths=None, stubs=None, refs=None, bounded=None):
     c = dict(fn=fn, name=name, call=call, vars=vars or {}, requires=list(requires), ensures=list(ensures),
              raises=raises, ensures_raise=list(ensures_raise), instances=instances or [{}], uses=list(uses),
              loops=loops or {}, modular=modular, note=note, must_inline=list(must_inline), replay=replay,
              on_effect=on_effect or {}, covers=list(covers), assumes=list(assumes), tier=tier, max_paths=max_paths,
-             stubs=stubs or {}, refs=refs or {})
+             stubs=stubs or {}, refs=refs or {}, bounded=bounded)
     CONTRACTS.append(c)
     return c
 
